@@ -150,8 +150,16 @@ func CheckCanaryNodes(pre, post *State, reconcileErr error, ns, name string) (is
 		}
 		if len(L) < want {
 			add("C15/count: fewer canary nodes than requested and no error reported (replicas given as "+kind+")", fmt.Sprintf("nodes=%v want %d of %d targeted", L, want, base))
-		} else if len(L) > len(prev) {
-			add("C15/count: the controller selected more canary nodes than requested", fmt.Sprintf("nodes=%v want %d", L, want))
+		} else {
+			newPicks := 0
+			for _, n := range L {
+				if !inPrev[n] {
+					newPicks++
+				}
+			}
+			if newPicks > 0 { // the list is longer than requested AND the controller itself added to it
+				add("C15/count: the controller selected more canary nodes than requested", fmt.Sprintf("nodes=%v (previous %v) want %d", L, prev, want))
+			}
 		}
 	}
 	// preference: least restarts (no anti-affinity keys); spread (with keys)
